@@ -424,7 +424,7 @@ def plan(tier, seed):
             # (whatever a tag keeps from one rendering for the next)
             shards.append(dict(kind='two-preemptions', src=src,
                                ns=[k % 4, (k + 1) % 4 + (1 if k == 3 else 0)],
-                               first=first, budget=1200 if tier == 'quick'
+                               first=first, budget=700 if tier == 'quick'
                                else 60000, warm=(k + 2) % 4))
     # the call path itself (DT_String.py) of a template that was rendered
     # before
@@ -450,7 +450,7 @@ def plan(tier, seed):
             shards.append(dict(kind='cook-vs-render', src=CATALOGUE[-2],
                                ns=[2, 3], p1s=[p1], stride2=1))
     n = 60 if tier == 'quick' else 1500
-    for i in range(8 if tier == 'quick' else 16):
+    for i in range(4 if tier == 'quick' else 16):
         shards.append(dict(kind='random', seed=seed * 1000 + i, n=n))
     # longest first, so that the pool does not end on one long shard
     slow = ('<dtml-in s3><dtml-try>', 'dtml-tree', 'sort=va>', 'start=stt')
